@@ -35,7 +35,8 @@ fn np<F: FnOnce() -> String>(f: F) -> String {
         let b = s.as_bytes();
         let mut i = 0;
         while i < b.len() {
-            let boundary = i == 0 || !(b[i - 1].is_ascii_alphanumeric() || b[i - 1] == b'_');
+            // start of a path: not inside an identifier and not a later segment (`a::core::b`)
+            let boundary = i == 0 || !(b[i - 1].is_ascii_alphanumeric() || b[i - 1] == b'_' || b[i - 1] == b':');
             if boundary && s[i..].starts_with("crate::") {
                 out.push_str(&k);
                 out.push_str("::");
